@@ -233,6 +233,7 @@ def m_split(ip, s, *a, **k):
     if a or k or not isinstance(s, SStr):
         raise Unsupported("split(sep) on symbolic string")
     arr = F_split_set(s.t)
+    core.cur().ghost.setdefault("split_apps", []).append((s.t, arr))
     return SSet(arr, arr, None)
 
 
